@@ -39,6 +39,62 @@ Print Assumptions C06_header_key_injective_refuted_with_underscore.
    is NOT proved in Coq: it is evaluated by the extracted model on every generated request
    (a counter-example would be reported as model-views-disagree). *)
 
+(* access_route / remote_addr: the two classes' computations agree for EVERY combination of
+   Forwarded / X-Forwarded-For / X-Real-IP and peer address (non-empty peer): the peer is appended
+   unless it already is the LAST hop, so it always ends the route and remote_addr is the peer *)
+Theorem C06_access_route_views_agree : forall f fwd xff xreal peer,
+  peer <> Some [] ->
+  wsgi_access_route f fwd xff xreal peer = asgi_access_route f fwd xff xreal peer.
+Proof. exact access_route_views_agree. Qed.
+Print Assumptions C06_access_route_views_agree.
+
+Theorem C06_access_route_ends_with_peer : forall f fwd xff xreal peer r,
+  peer <> Some [] ->
+  asgi_access_route f fwd xff xreal peer = Ok r -> last r [] = wsgi_remote_addr peer.
+Proof. exact access_route_ends_with_peer. Qed.
+Print Assumptions C06_access_route_ends_with_peer.
+
+Theorem C06_remote_addr_views_agree : forall f fwd xff xreal peer,
+  peer <> Some [] ->
+  match asgi_remote_addr f fwd xff xreal peer with
+  | Ok a => a = wsgi_remote_addr peer
+  | Http400 => asgi_access_route f fwd xff xreal peer = Http400
+  | Crash k => asgi_access_route f fwd xff xreal peer = Crash k
+  end.
+Proof. exact remote_addr_views_agree. Qed.
+Print Assumptions C06_remote_addr_views_agree.
+
+Theorem C06_peer_inside_chain_is_still_appended :
+  wsgi_access_route true None (Some (lit "10.0.0.1, 10.0.0.2")) None (Some (lit "10.0.0.1"))
+  = Ok [lit "10.0.0.1"; lit "10.0.0.2"; lit "10.0.0.1"].
+Proof. exact peer_inside_chain_is_still_appended. Qed.
+Print Assumptions C06_peer_inside_chain_is_still_appended.
+
+(* response body: Response.render_body (WSGI app) and the copy inlined in asgi.App.__call__ pick
+   the same source for every subset of text / data / media, empty values included *)
+Theorem C06_render_body_views_agree : forall text data media,
+  wsgi_render_body text data media = asgi_inline_render_body text data media.
+Proof. exact render_body_views_agree. Qed.
+Print Assumptions C06_render_body_views_agree.
+
+Theorem C06_empty_text_takes_precedence : forall data media,
+  asgi_inline_render_body (Some []) data media = Some [] /\
+  asgi_inline_render_body None (Some []) media = Some [].
+Proof. exact empty_text_takes_precedence. Qed.
+Print Assumptions C06_empty_text_takes_precedence.
+
+(* request target: falcon.testing splits an inline query at the FIRST question mark, like a server *)
+Theorem C06_sim_split_is_target_split : forall path,
+  char_in qmark path = true -> sim_split path None = Some (target_split path).
+Proof. exact sim_split_is_target_split. Qed.
+Print Assumptions C06_sim_split_is_target_split.
+
+Theorem C06_sim_split_separate : forall path q,
+  char_in qmark path = false ->
+  sim_split path (Some q) = Some (target_split (path ++ qmark :: q)).
+Proof. exact sim_split_separate. Qed.
+Print Assumptions C06_sim_split_separate.
+
 (* Content-Length and query string: the twins agree on ASCII values ... *)
 Theorem C06_content_length_views_agree_partial : forall v,
   is_ascii v = true -> content_length_wsgi (Some v) = content_length_asgi (Some v).
